@@ -67,13 +67,15 @@ type Script struct {
 	// Unsync: the sink shares NO state with the capture handles (the harness must not add a happens-before edge
 	// between the sender and the receiver goroutine that real sockets do not have); replies are pre-seeded from a
 	// template probe built from the predictable flow identity.
-	Eager    bool   `json:"eager"` // replies with delay 0 are handled by the receiver before WriteTo returns to the sender
-	Unsync   bool   `json:"unsync"`
-	TVariant string `json:"t_variant"`
-	TEID     int    `json:"t_eid"`
-	TDPort   int    `json:"t_dport"`
-	TLocal   string `json:"t_local"`
-	TTarget  string `json:"t_target"`
+	WriteStallUs map[string]int64 `json:"write_stall_us"` // ttl -> how long the write of that probe blocks inside the sink (a full send buffer, a shaping qdisc)
+	Realclock    bool             `json:"-"`              // set by the scenario runner
+	Eager        bool             `json:"eager"`          // replies with delay 0 are handled by the receiver before WriteTo returns to the sender
+	Unsync       bool             `json:"unsync"`
+	TVariant     string           `json:"t_variant"`
+	TEID         int              `json:"t_eid"`
+	TDPort       int              `json:"t_dport"`
+	TLocal       string           `json:"t_local"`
+	TTarget      string           `json:"t_target"`
 }
 
 type handle struct {
@@ -351,7 +353,12 @@ func (s *sink) Close() error {
 func (s *sink) WriteTo(buf []byte, ap netip.AddrPort) error {
 	w := s.w
 	err, eager := s.writeLocked(buf, ap)
-	if eager {
+	if len(w.script.WriteStallUs) > 0 && err == nil {
+		if v := pkt.Describe(buf); w.script.WriteStallUs[strconv.Itoa(v.TTL)] > 0 {
+			time.Sleep(time.Duration(w.script.WriteStallUs[strconv.Itoa(v.TTL)]) * time.Microsecond)
+		}
+	}
+	if eager && !w.script.Realclock {
 		// "eager" schedule class: the reply is on the capture handle the moment the probe leaves, and the receiver
 		// goroutine handles it completely BEFORE the sending goroutine gets to run again (a very fast responder and a
 		// descheduled sender). synctest.Wait returns when every other goroutine of the bubble is durably blocked.
